@@ -12,9 +12,12 @@ KeysOf == {R.keys[k] : k \in 1..Len(R.keys)}
 D0 == ApplyAll(R.init, [k \in KeysOf |-> 0])
 ElemKey(e) == LET P == {k \in 1..Len(R.ek) : R.ek[k][1] = e} IN IF P = {} THEN 0 ELSE R.ek[CHOOSE k \in P : TRUE][2]
 SetOf(s) == {s[k] : k \in 1..Len(s)}
+\* a sweep = one step per reported element (it removed exactly that element of its key) + for every key of which it
+\* reported nothing, one step at which that key held no expired element
 Expand(h) == IF h.op.m # "sweep" THEN {[id |-> <<h.t, h.i, 0>>, op |-> h.op, res |-> h.res, call |-> h.call, ret |-> h.ret]}
-             ELSE {[id |-> <<h.t, h.i, k>>, call |-> h.call, ret |-> h.ret, op |-> [m |-> "sweepkey", k |-> k, v |-> 0],
-                    res |-> LET es == {e \in SetOf(h.res) : ElemKey(e) = k} IN IF es = {} THEN <<0, FALSE>> ELSE <<CHOOSE e \in es : TRUE, TRUE>>] : k \in KeysOf}
+             ELSE {[id |-> <<h.t, h.i, 1000 + e>>, call |-> h.call, ret |-> h.ret, op |-> [m |-> "sweepelem", k |-> ElemKey(e), v |-> e], res |-> <<e, TRUE>>] : e \in SetOf(h.res)}
+                  \cup {[id |-> <<h.t, h.i, k>>, call |-> h.call, ret |-> h.ret, op |-> [m |-> "sweepkey", k |-> k, v |-> 0], res |-> <<0, FALSE>>]
+                         : k \in {x \in KeysOf : \A e \in SetOf(h.res) : ElemKey(e) # x}}
 Ops == UNION {Expand(R.ops[k]) : k \in 1..Len(R.ops)}
 
 C14_NoCrash         == J => (~R.panic /\ ~R.stuck)
